@@ -81,9 +81,9 @@ AfterJump == {<<H("<"), Each("v", Var("ar"), <<j>> \o Meta, NoElse, 1), H(">")>>
                        ContinueIf(Bin("==", LoopF("iter"), IntL(2)), 1), BreakIf(LoopF("last"), 1)}}
 IntArrays == {ArrL(<<IntL(1), IntL(2), IntL(3)>>), ArrL(<<IntL(2)>>), Var("ar"), ArrL(<<>>)}
 \* a loop field bound to a name in one pass keeps its value when it is read in later passes
-KeptFields == {<<Each("v", Var("ar"), <<If(<<Br(LoopF("first"), <<Assign("p", LoopF(f), 1)>>)>>, NoElse, 1), H("<"), P(Var("p")), H(">")>>, NoElse, 1)>> : f \in {"iter", "index", "first", "last"}}
-              \cup {<<Each("v", Var("ar"), <<If(<<Br(LoopF("first"), <<Assign("p", LoopF("iter"), 1), Assign("q", ArrL(<<LoopF("index")>>), 1)>>)>>, NoElse, 1), P(Var("p")), P(Var("q")), H(",")>>, NoElse, 1)>>,
-                    <<Each("v", Var("ar"), <<If(<<Br(Bin("==", V, IntL(2)), <<Assign("p", V, 1)>>)>>, <<If(<<Br(LoopF("first"), <<Assign("p", IntL(0), 1)>>)>>, NoElse, 1)>>, 1), P(Var("p"))>>, NoElse, 1)>>}
+KeptFields == {<<Each("v", Var("ar"), <<Assign("p", Tern(LoopF("first"), LoopF(f), Var("p")), 1), H("<"), P(Var("p")), H(">")>>, NoElse, 1)>> : f \in {"iter", "index", "first", "last"}}
+              \cup {<<Assign("acc", ArrL(<<IntL(0)>>), 1), Each("v", Var("ar"), <<Assign("acc", Call(Var("acc"), "append", <<LoopF(f)>>), 1), P(Var("acc")), H(";")>>, NoElse, 1)>> : f \in {"iter", "index"}}
+              \cup {<<Each("v", Var("ar"), <<Assign("l", Tern(LoopF("first"), Var("loop"), Var("l")), 1), P(Dot(Var("l"), "iter")), P(Dot(Var("l"), "last")), H(",")>>, NoElse, 1)>>}
 EachLoops == AfterJump \cup KeptFields \cup {<<H("<"), Each("v", a, Meta, els, 1), H(">")>> : a \in Arrays, els \in {NoElse, <<H("[empty]")>>}}
        \cup {<<H("<"), Each("v", a, b, els, 1), H(">")>> : a \in IntArrays, els \in {NoElse, <<H("[empty]")>>},
                                                             b \in UNION {Placed(j) : j \in Jumps}}
